@@ -12,9 +12,11 @@ import (
 )
 
 type Action struct {
-	Kind  string     `json:"kind"`  // block | skip | fork | reload
-	Slots int        `json:"slots"` // block: slot delta (>=1); skip: slots to advance
-	Plan  *BlockPlan `json:"plan,omitempty"`
+	Kind    string     `json:"kind"`  // block | skip | fork | reload
+	Slots   int        `json:"slots"` // block: slot delta (>=1); skip: slots to advance
+	Plan    *BlockPlan `json:"plan,omitempty"`
+	Mut     []string   `json:"mut,omitempty"` // C03: catalogue ids to try on this block, in order
+	MutSeed uint64     `json:"mut_seed,omitempty"`
 }
 
 type ChainCase struct {
